@@ -117,4 +117,61 @@ Proof.
   { unfold binit, dflt. rewrite nth_repeat. reflexivity. }
   rewrite <- H. apply serial_from. intros s Hs. apply repeat_spec in Hs. subst. unfold wf, is_busy. simpl. discriminate.
 Qed.
+(* ---- order *)
+Lemma begun_app l (o1 o2 : list (lobs E)) : begun E l (o1 ++ o2) = begun E l o1 ++ begun E l o2.
+Proof.
+  induction o1 as [|x o1 IH]; [reflexivity|]. destruct x as [l' e|l' e]; simpl; [|exact IH].
+  destruct (Nat.eqb l l'); simpl; rewrite IH; reflexivity.
+Qed.
+
+Lemma begun_other l j (o : list (lobs E)) :
+  l <> j -> (forall x, In x o -> match x with Begin _ l' _ | End _ l' _ => l' = j end) -> begun E l o = [].
+Proof.
+  intros Hne. induction o as [|x o IH]; intros H; [reflexivity|].
+  pose proof (H x (or_introl eq_refl)) as Hx. destruct x as [l' e|l' e]; subst l'; simpl.
+  - destruct (Nat.eqb l j) eqn:Q; [apply Nat.eqb_eq in Q; congruence|]. apply IH. intros y Hy. apply H. right; exact Hy.
+  - apply IH. intros y Hy. apply H. right; exact Hy.
+Qed.
+
+Lemma move_order l (s : lst) :
+  begun E l (snd (move E l s)) ++ pending E (fst (move E l s)) = pending E s.
+Proof.
+  unfold move. destruct (running E s); [|reflexivity]. destruct (busy E s); [reflexivity|].
+  destruct (pending E s); simpl; [reflexivity|]. rewrite Nat.eqb_refl. reflexivity.
+Qed.
+
+Theorem order_from l : forall sched ls, l < length ls ->
+  begun E l (snd (brun E ls sched)) ++ pending E (nth l (fst (brun E ls sched)) dflt) =
+  pending E (nth l ls dflt) ++ emitted E sched.
+Proof.
+  induction sched as [|a sched IH]; intros ls Hl.
+  - simpl. rewrite app_nil_r. reflexivity.
+  - cbn [brun]. destruct a as [e|j].
+    + cbn [bstep emitted]. specialize (IH (map (push E e) ls)). rewrite map_length in IH. specialize (IH Hl).
+      destruct (brun E (map (push E e) ls) sched) as [ls2 o2]. simpl in *. rewrite IH.
+      rewrite (nth_indep _ dflt (push E e dflt)) by (rewrite map_length; exact Hl). rewrite map_nth.
+      unfold push at 1. simpl. rewrite <- app_assoc. reflexivity.
+    + cbn [bstep emitted]. pose proof (move_nth_length j j ls) as Hlen.
+      specialize (IH (fst (move_nth E j j ls))). rewrite Hlen in IH. specialize (IH Hl).
+      assert (Hstep : begun E l (snd (move_nth E j j ls)) ++ pending E (nth l (fst (move_nth E j j ls)) dflt) =
+                      pending E (nth l ls dflt)).
+      { destruct (Nat.eq_dec l j) as [->|Hne].
+        - destruct (move_nth_same j j ls Hl) as [H1 H2]. rewrite H1, H2. apply move_order.
+        - rewrite move_nth_other by exact Hne. rewrite begun_other with (j := j); [reflexivity | exact Hne |].
+          destruct (Nat.lt_ge_cases j (length ls)) as [Hj|Hj].
+          + destruct (move_nth_same j j ls Hj) as [_ H2]. rewrite H2. apply move_obs_tag.
+          + rewrite move_nth_out by exact Hj. intros x []. }
+      destruct (move_nth E j j ls) as [ls1 o1]. simpl in *. destruct (brun E ls1 sched) as [ls2 o2]. simpl in *.
+      rewrite begun_app, <- app_assoc, IH, app_assoc, Hstep. reflexivity.
+Qed.
+
+(** delivery_is_emit_order: under every schedule the events a listener has been called with,
+    followed by those still queued for it, are exactly the emitted events in emit order — the
+    invocation order of each listener is the emit order. *)
+Theorem delivery_is_emit_order n sched l : l < n ->
+  begun E l (snd (brun E (binit E n) sched)) ++ pending E (nth l (fst (brun E (binit E n) sched)) dflt) = emitted E sched.
+Proof.
+  intros Hl. rewrite order_from by (unfold binit; rewrite repeat_length; exact Hl).
+  unfold binit, dflt. rewrite nth_repeat. reflexivity.
+Qed.
 End B.
